@@ -55,6 +55,10 @@ def catalogue(n, origin=0, rng=None):
     if len(set(lab)) == n:
         out.append(SpanSpec('list[int] unsorted', (lambda a=lab: list(a)), [[x] for x in lab],
                             [999, 5000, 'a'], text_labels=[str(x) for x in lab]))
+    # plain lists / tuples of consecutive years (a window that rolls with `origin`: the same labels at other positions)
+    lab = list(range(3000 + origin, 3000 + origin + n))
+    out.append(SpanSpec('list[int] consecutive', (lambda a=lab: list(a)), [[x] for x in lab], [lab[0] - 1, lab[-1] + 1, str(lab[0])], text_labels=[str(x) for x in lab]))
+    out.append(SpanSpec('tuple[int] consecutive', (lambda a=lab: tuple(a)), [[x] for x in lab], [lab[0] - 1, lab[-1] + 1], text_labels=[str(x) for x in lab]))
     # list of strings
     names = ['a', 'b', 'c', 'dd', 'e1', 'F', 'g_', 'h', 'i', 'j', 'k', 'l', 'm', 'n', 'o', 'p'][:n]
     if len(names) == n:
